@@ -219,3 +219,109 @@ func VerifC17_EventViaParser() {
 	}
 	verifReach("via-parser")
 }
+
+// verifC19Two: two events in one datagram (symbolic titles) from one sender, or in two
+// datagrams from two senders (symbolic), through the same chain; on a cache miss both are
+// parked and the lookup answers arrive in a symbolic order. Each backend receives each event
+// exactly once with its own title and the source of its own sender; accounting as above.
+func verifC19Two(nBackends int) {
+	var backends []gostatsd.Backend
+	var recs []*verifEventBackend
+	for i := 0; i < nBackends; i++ {
+		r := &verifEventBackend{}
+		recs = append(recs, r)
+		backends = append(backends, r)
+	}
+	maxConc := uint(nondetIntIn(1, 2))
+	bh := NewBackendHandler(backends, maxConc, 1, 1, AggregatorFactoryFunc(func() Aggregator {
+		return NewMetricAggregator(nil, 0, 0, 0, 0, gostatsd.TimerSubtypes{}, 0)
+	}))
+	th := NewTagHandler(bh, gostatsd.Tags{"st:1"}, nil)
+	inst := &gostatsd.Instance{ID: "i-abc", Tags: gostatsd.Tags{"region:r1"}}
+	cache := &verifCache19{mode: nondetIntIn(0, 2), inst: inst}
+	ch := NewCloudHandler(cache, th)
+	ch.incomingEvents = make(chan *gostatsd.Event, 4)
+	ch.incomingMetrics = make(chan *gostatsd.MetricMap, 2)
+	mp := pool.NewMetricPool(0)
+	dp := verifNewParser("", false, nil, mp)
+	dp.handler = ch
+	nowCell := int64(1700000000) * 1000000000
+	verifSetNow(&nowCell)
+	ta, tb := verifTagBytes(1), verifTagBytes(1)
+	lineA := []byte{'_', 'e', '{', '1', ',', '1', '}', ':', ta[0], '|', 'x'}
+	lineB := []byte{'_', 'e', '{', '1', ',', '1', '}', ':', tb[0], '|', 'y'}
+	ctx := context.Background()
+	l := &lexer.Lexer{MetricPool: mp}
+	ipA, ipB := gostatsd.Source("10.0.0.1"), gostatsd.Source("10.0.0.1")
+	if nondetBool() {
+		// one datagram, two lines
+		dg := append(append(append([]byte{}, lineA...), '\n'), lineB...)
+		_, nEvents, nBad := dp.handleDatagram(ctx, l, 5, ipA, dg)
+		verifAssert(nEvents == 2 && nBad == 0, "both event lines are accepted")
+	} else {
+		ipB = "10.0.0.2"
+		_, n1, b1 := dp.handleDatagram(ctx, l, 5, ipA, lineA)
+		_, n2, b2 := dp.handleDatagram(ctx, l, 5, ipB, lineB)
+		verifAssert(n1 == 1 && n2 == 1 && b1 == 0 && b2 == 0, "both event lines are accepted")
+		verifReach("two-senders")
+	}
+	tagged := map[gostatsd.Source]bool{}
+	if cache.mode == 0 {
+		verifAssert(len(ch.incomingEvents) == 2, "events with unknown senders are handed to the lookup loop")
+		for _, r := range recs {
+			verifAssert(len(r.events) == 0, "an event must not reach a backend before its sender's lookup completed")
+			r.parkedIn = ch
+		}
+		ch.handleIncomingEvent(<-ch.incomingEvents)
+		ch.handleIncomingEvent(<-ch.incomingEvents)
+		answer := func(ip gostatsd.Source) {
+			var in *gostatsd.Instance
+			if nondetBool() {
+				in = inst
+			}
+			ch.handleInstanceInfo(ctx, gostatsd.InstanceInfo{IP: ip, Instance: in})
+			verifYield()
+			tagged[ip] = in != nil
+		}
+		if ipA == ipB {
+			answer(ipA)
+		} else if nondetBool() {
+			answer(ipA)
+			answer(ipB)
+		} else {
+			answer(ipB)
+			answer(ipA)
+		}
+		verifReach("after-lookup")
+	} else {
+		tagged[ipA], tagged[ipB] = cache.mode == 2, cache.mode == 2
+	}
+	ch.WaitForEvents()
+	verifAssert(verifWaitGroupCount(&ch.wg) == 0 && verifWaitGroupCount(&bh.eventWg) == 0, "wait-group counters are back to zero after WaitForEvents")
+	verifAssert(len(bh.concurrentEvents) == 0, "event semaphore fully released")
+	for _, r := range recs {
+		verifAssert(len(r.events) == 2, "each backend receives each of the two events exactly once")
+		na, nb := 0, 0
+		for _, e := range r.events {
+			wantSrc := func(ip gostatsd.Source) gostatsd.Source {
+				if tagged[ip] {
+					return inst.ID
+				}
+				return ip
+			}
+			switch {
+			case e.Text == "x":
+				na++
+				verifAssert(e.Title == string(ta) && e.Source == wantSrc(ipA), "the first event keeps its title and gets its own sender's source")
+			case e.Text == "y":
+				nb++
+				verifAssert(e.Title == string(tb) && e.Source == wantSrc(ipB), "the second event keeps its title and gets its own sender's source")
+			}
+		}
+		verifAssert(na == 1 && nb == 1, "no event is delivered twice or swapped for the other")
+	}
+	verifReach("delivered-two")
+}
+
+func VerifC19_Two1() { verifC19Two(1) }
+func VerifC19_Two2() { verifC19Two(2) }
